@@ -1,4 +1,4 @@
-// CONFIGS: back back11 backmp11
+// CONFIGS: back back11 backmp11 backmp11_ct
 // family `block` (C11, C17): terminate / interrupt states in one of three regions, flags with OR / AND over 3 regions walked along
 // two different paths (flags must be a function of the configuration only).
 #include "common.hpp"
